@@ -43,6 +43,12 @@ def groups_for(strings, years, today, thorough, rnd, all_strings):
             {"text": f"1 {R} ___", "cls": "FullCaseCitation", "key": "ph", "selfonly": True, "want": {**want, "page": ""}},
             {"text": f"1 {R} ___", "cls": "FullCaseCitation", "key": "ph", "selfonly": True, "want": {**want, "page": ""}},
         ]
+        # the string is an edition name AND a variation of other editions: exact names win whatever the year, also a
+        # year in which only one of the OTHER editions was published (its first / last year)
+        for oid in s.get("others", []):
+            oa, ob = years.get(oid, [None, None])
+            for y in sorted({v for v in (oa, ob) if v and 1600 <= v <= today}):
+                m.append({"text": f"Quux v. Corge, 1 {R} 2 ({y}).", "cls": "FullCaseCitation", "key": key, "want": want})
         # a different edition of the same reporter, same volume and page: a different document
         prefix = s["editions"][0].rsplit("#", 1)[0] + "#"
         sib = sorted(k.rsplit("#", 1)[1] for k in years if k.startswith(prefix) and k != s["editions"][0])
@@ -68,7 +74,7 @@ def main(pid):
         var = [s for s in strings if s["canon"] and not s["is_exact"]]
         exact = [s for s in strings if s["canon"] and s["is_exact"]]
         rnd.shuffle(exact)
-        strings = var + exact[:300]
+        strings = var + [s for s in exact if s.get("others")] + [s for s in exact if not s.get("others")][:300]
     groups = groups_for(strings, db["years"], today, thorough, rnd, db["strings"])
     # special groups: nominative parentheticals, Id / Unknown / supra, law and journal citations
     groups.append({"label": "nominative", "members": [
